@@ -9,18 +9,18 @@ def selMap (sel : Nat → Option Nat) (xs : List Nat) : List Nat := xs.filterMap
 
 /-- allocation behaviour of a loop of `add` calls that destroys the partial result on a refusal:
 `need` nodes are still to be added to a result that already owns `have_ + 1` blocks -/
-def Mem.buildChain : Nat → Nat → Mem → Bool × Mem
+def Mem.buildChain (t : Triple) : Nat → Nat → Mem → Bool × Mem
   | 0, _, m => (true, m)
   | k + 1, got, m =>
-    let a := m.alloc
-    if !a.1 then (false, Mem.freeN (got + 1) a.2) else Mem.buildChain k (got + 1) a.2
+    let a := (m.allocT t)
+    if !a.1 then (false, Mem.freeN t (got + 1) a.2) else Mem.buildChain t k (got + 1) a.2
 
 theorem buildLoop_ofList (xs : List Nat) (sel : Nat → Option Nat) : ∀ (k j : Nat) (dst : List Nat) (m : Mem),
     j + k ≤ xs.length →
-    buildLoop (ofList xs) sel k (ptrAt xs.length j) (ofList dst) m =
+    buildLoop (ofList t xs) sel k (ptrAt xs.length j) (ofList t dst) m =
       let add := selMap sel ((xs.drop j).take k)
-      let r := Mem.buildChain add.length dst.length m
-      if r.1 then (.ok, ofList (dst ++ add), r.2) else (.errAlloc, {}, r.2)
+      let r := Mem.buildChain t add.length dst.length m
+      if r.1 then (.ok, ofList t (dst ++ add), r.2) else (.errAlloc, {}, r.2)
   | 0, j, dst, m, _ => by simp [buildLoop, selMap, Mem.buildChain]
   | k + 1, j, dst, m, h => by
     have hj : j < xs.length := by omega
@@ -36,32 +36,33 @@ theorem buildLoop_ofList (xs : List Nat) (sel : Nat → Option Nat) : ∀ (k j :
       rw [buildLoop_ofList xs sel k (j + 1) dst m (by omega)]
       rfl
     · simp only [hs, addLast_ofList, LSeq.addLast, List.length_cons, Mem.buildChain]
-      by_cases ha : m.alloc.1 = true
+      (try simp only [ofList_triple])
+      by_cases ha : (m.allocT t).1 = true
       · simp only [ha, if_true, bne_self_eq_false, Bool.false_eq_true, if_false, Bool.not_true]
-        rw [buildLoop_ofList xs sel k (j + 1) (dst ++ [y]) m.alloc.2 (by omega)]
+        rw [buildLoop_ofList xs sel k (j + 1) (dst ++ [y]) (m.allocT t).2 (by omega)]
         simp [selMap]
       · simp only [ha, Bool.not_false, if_true]
         have : (Stat.errAlloc != Stat.ok) = true := rfl
         simp [this, destroy_ofList]
 
-theorem Mem.buildChain_spec : ∀ (k got : Nat) (m : Mem), got + 1 ≤ m.live →
-    ((Mem.buildChain k got m).1 = true → (Mem.buildChain k got m).2.live = m.live + k) ∧
-    ((Mem.buildChain k got m).1 = false → (Mem.buildChain k got m).2.live = m.live - (got + 1)) ∧
-    (Mem.buildChain k got m).2.fault = m.fault ∧ (Mem.buildChain k got m).2.libc = m.libc
-  | 0, got, m, _ => by simp [Mem.buildChain]
+theorem Mem.buildChain_spec (t : Triple) : ∀ (k got : Nat) (m : Mem), got + 1 ≤ m.liveT t →
+    ((Mem.buildChain t k got m).1 = true → (Mem.buildChain t k got m).2.liveT t = m.liveT t + k) ∧
+    ((Mem.buildChain t k got m).1 = false → (Mem.buildChain t k got m).2.liveT t = m.liveT t - (got + 1)) ∧
+    (Mem.buildChain t k got m).2.fault = m.fault ∧ Mem.Frame t m (Mem.buildChain t k got m).2
+  | 0, got, m, _ => by simp [Mem.buildChain, Mem.Frame.rfl']
   | k + 1, got, m, h => by
     simp only [Mem.buildChain]
-    by_cases ha : m.alloc.1 = true
-    · have e := Mem.alloc_fst_true m ha
-      have ih := Mem.buildChain_spec k (got + 1) m.alloc.2 (by omega)
+    by_cases ha : (m.allocT t).1 = true
+    · have e := Mem.allocT_fst_true m t ha
+      have ih := Mem.buildChain_spec t k (got + 1) (m.allocT t).2 (by omega)
       simp only [ha, Bool.not_true, Bool.false_eq_true, if_false]
       refine ⟨fun h1 => by rw [ih.1 h1, e.1]; omega, fun h1 => by rw [ih.2.1 h1, e.1]; omega,
-        by rw [ih.2.2.1, e.2.1], by rw [ih.2.2.2, e.2.2]⟩
-    · have ha' : m.alloc.1 = false := by simpa using ha
-      have e := Mem.alloc_fst_false m ha'
-      have f := Mem.freeN_live (got + 1) m.alloc.2 (by omega)
+        by rw [ih.2.2.1, e.2], (Mem.frame_allocT t m).trans ih.2.2.2⟩
+    · have ha' : (m.allocT t).1 = false := by simpa using ha
+      have e := Mem.allocT_fst_false m t ha'
+      have f := Mem.freeN_live t (got + 1) (m.allocT t).2 (by omega)
       simp only [ha', Bool.not_false, if_true]
-      refine ⟨by simp, fun _ => by rw [f.1, e.1], by rw [f.2.1, e.2.1], by rw [f.2.2, e.2.2]⟩
+      refine ⟨by simp, fun _ => by rw [f.1, e.1], by rw [f.2.1, e.2.1], (Mem.frame_allocT t m).trans f.2.2⟩
 
 theorem selMap_some (xs : List Nat) : selMap some xs = xs := by simp [selMap]
 theorem selMap_map (cp : Nat → Nat) (xs : List Nat) : selMap (fun v => some (cp v)) xs = xs.map cp := by
@@ -74,59 +75,62 @@ theorem selMap_filter (p : Nat → Bool) (xs : List Nat) :
   | cons y ys ih => by_cases h : p y <;> simp [h, ih]
 
 /-- common shape of the four builders: header allocation, then the filling loop -/
-def builderResult (add : List Nat) (m : Mem) : Stat × Option Chain × Mem :=
-  if !m.alloc.1 then (.errAlloc, none, m.alloc.2) else
-  let r := Mem.buildChain add.length 0 m.alloc.2
-  if r.1 then (.ok, some (ofList add), r.2) else (.errAlloc, none, r.2)
+def builderResult (t : Triple) (add : List Nat) (m : Mem) : Stat × Option Chain × Mem :=
+  if !(m.allocT t).1 then (.errAlloc, none, (m.allocT t).2) else
+  let r := Mem.buildChain t add.length 0 (m.allocT t).2
+  if r.1 then (.ok, some (ofList t add), r.2) else (.errAlloc, none, r.2)
 
 theorem sublist_ofList (xs : List Nat) (b e : Nat) (m : Mem) :
-    sublist (ofList xs) b e m =
+    sublist (ofList t xs) b e m =
       match (LSeq.sublist xs b e).2 with
       | none => ((LSeq.sublist xs b e).1, none, m)
-      | some add => builderResult add m := by
+      | some add => builderResult t add m := by
   unfold sublist LSeq.sublist
   by_cases hr : b > e ∨ e ≥ xs.length
   · have : (decide (b > e) || decide (e ≥ xs.length)) = true := by simpa using hr
     simp [hr, this]
-  · have : (decide (b > e) || decide (e ≥ (ofList xs).size)) = false := by simpa using hr
+  · have : (decide (b > e) || decide (e ≥ (ofList t xs).size)) = false := by simpa using hr
     simp only [this, Bool.false_eq_true, if_false, hr, new_eq, builderResult]
-    by_cases ha : m.alloc.1 = true
+    (try simp only [ofList_triple])
+    by_cases ha : (m.allocT t).1 = true
     · have hb : b < xs.length := by omega
       simp only [ha, if_true, getNodeAt_ofList, hb, bne_self_eq_false, Bool.false_eq_true, if_false,
         Bool.not_true]
-      rw [← ptrAt_lt _ _ hb, buildLoop_ofList xs some _ b [] m.alloc.2 (by omega)]
+      rw [← ptrAt_lt _ _ hb, buildLoop_ofList xs some _ b [] (m.allocT t).2 (by omega)]
       simp only [selMap_some, List.nil_append, List.length_nil]
-      generalize Mem.buildChain (List.take (e - b + 1) (List.drop b xs)).length 0 m.alloc.2 = bc
+      generalize Mem.buildChain t (List.take (e - b + 1) (List.drop b xs)).length 0 (m.allocT t).2 = bc
       by_cases hc : bc.1 = true <;> simp [hc]
     · simp [ha]
 
 theorem copy_ofList (cp : Nat → Nat) (xs : List Nat) (m : Mem) :
-    copy cp (ofList xs) m = builderResult (LSeq.copyDeep cp xs) m := by
+    copy cp (ofList t xs) m = builderResult t (LSeq.copyDeep cp xs) m := by
   unfold copy LSeq.copyDeep builderResult
   simp only [new_eq]
-  by_cases ha : m.alloc.1 = true
+  (try simp only [ofList_triple])
+  by_cases ha : (m.allocT t).1 = true
   · simp only [ha, if_true, Bool.not_true, Bool.false_eq_true, if_false, ofList_nodes]
-    rw [ofList_head_ptrAt, buildLoop_ofList xs _ xs.length 0 [] m.alloc.2 (by omega)]
+    rw [ofList_head_ptrAt, buildLoop_ofList xs _ xs.length 0 [] (m.allocT t).2 (by omega)]
     simp only [selMap_map, List.drop_zero, List.take_length, List.nil_append, List.length_nil]
-    generalize Mem.buildChain (List.map cp xs).length 0 m.alloc.2 = bc
+    generalize Mem.buildChain t (List.map cp xs).length 0 (m.allocT t).2 = bc
     by_cases hc : bc.1 = true <;> simp [hc]
   · simp [ha]
 
 theorem filter_ofList (p : Nat → Bool) (xs : List Nat) (m : Mem) :
-    filter p (ofList xs) m =
+    filter p (ofList t xs) m =
       match (LSeq.filter p xs).2 with
       | none => ((LSeq.filter p xs).1, none, m)
-      | some add => builderResult add m := by
+      | some add => builderResult t add m := by
   unfold filter LSeq.filter
   by_cases hx : xs = []
   · simp [hx]
   have hxl := length_ne_zero_of_ne_nil hx
   simp only [ofList_size, hxl, if_false, hx, new_eq, builderResult]
-  by_cases ha : m.alloc.1 = true
+  (try simp only [ofList_triple])
+  by_cases ha : (m.allocT t).1 = true
   · simp only [ha, if_true, Bool.not_true, Bool.false_eq_true, if_false, ofList_nodes]
-    rw [ofList_head_ptrAt, buildLoop_ofList xs _ xs.length 0 [] m.alloc.2 (by omega)]
+    rw [ofList_head_ptrAt, buildLoop_ofList xs _ xs.length 0 [] (m.allocT t).2 (by omega)]
     simp only [selMap_filter, List.drop_zero, List.take_length, List.nil_append, List.length_nil]
-    generalize Mem.buildChain (List.filter p xs).length 0 m.alloc.2 = bc
+    generalize Mem.buildChain t (List.filter p xs).length 0 (m.allocT t).2 = bc
     by_cases hc : bc.1 = true <;> simp [hc]
   · simp [ha]
 end CC.DList
